@@ -288,6 +288,43 @@ fn ops(t: &T) -> u32 {
     }
 }
 
+/// Operator trees over identifiers have a counterpart in the model's surface syntax (the
+/// round-trip theorem's domain): its wire form, without / with the redundant parentheses of
+/// the fully parenthesised rendering.  None: the tree uses literals or postfix forms.
+fn st_wire(t: &T, full: bool) -> Option<String> {
+    let sub = |x: &T| -> Option<String> {
+        let w = st_wire(x, full)?;
+        Some(if full { format!("(paren {})", w) } else { w })
+    };
+    Some(match t {
+        T::Id(n) => format!("(id {})", sx_str(n)),
+        T::Cond(c, a, b) => format!("(cond {} {} {})", sub(c)?, sub(a)?, sub(b)?),
+        T::Not(a) => format!("(not 0 {})", sub(a)?),
+        T::Neg(a) => format!("(neg 0 {})", sub(a)?),
+        T::Bin(op, a, b) => {
+            let (a, b) = (sub(a)?, sub(b)?);
+            match *op {
+                "||" => format!("(or {} {})", a, b),
+                "&&" => format!("(and {} {})", a, b),
+                "*" => format!("(mul star {} {})", a, b),
+                "/" => format!("(mul slash {} {})", a, b),
+                "%" => format!("(mul percent {} {})", a, b),
+                "+" => format!("(add plus {} {})", a, b),
+                "-" => format!("(add minus {} {})", a, b),
+                "<" => format!("(rel lt {} {})", a, b),
+                "<=" => format!("(rel le {} {})", a, b),
+                ">=" => format!("(rel ge {} {})", a, b),
+                ">" => format!("(rel gt {} {})", a, b),
+                "==" => format!("(rel eq {} {})", a, b),
+                "!=" => format!("(rel ne {} {})", a, b),
+                "in" => format!("(rel in {} {})", a, b),
+                _ => return None,
+            }
+        }
+        _ => return None,
+    })
+}
+
 fn emit_tree(em: &mut Emit, t: &T, kind: &str) {
     let exp = format!("(ok {})", expected(t));
     let nt = (ops(t) >= 2) as u8;
@@ -298,10 +335,50 @@ fn emit_tree(em: &mut Emit, t: &T, kind: &str) {
         em.case("(echo (bool true))", &law, &format!("nt={};kind=law-{}-{}", nt, kind, style), &src);
         // and the correspondence of the model's parser on the same text
         em.case(&format!("(compile {})", sx_str(&src)), &got, &format!("nt={};kind={}-{}", nt, kind, style), &src);
+        // the domain of the round-trip theorem: the real lexer's tokens are the model's rendering
+        // of the tree, and the real parser's AST is the tree's AST
+        if let Some(w) = st_wire(t, style == "full") {
+            em.case(&format!("(c04 {} {})", w, sx_str(&src)), &format!("(c04 true {})", got), &format!("nt={};kind=surface-{}-{}", nt, kind, style), &src);
+        }
+    }
+}
+
+/// longer chains and prefix runs in the surface syntax
+fn emit_surface_chains(em: &mut Emit) {
+    for (op, tag) in [("&&", "and"), ("||", "or")] {
+        for n in 2..=24usize {
+            let src = (0..n).map(|i| format!("t{}", i)).collect::<Vec<_>>().join(&format!(" {} ", op));
+            let w = format!("({}{})", tag, (0..n).map(|i| format!(" (id {})", sx_str(&format!("t{}", i)))).collect::<String>());
+            em.case(&format!("(c04 {} {})", w, sx_str(&src)), &format!("(c04 true {})", parse_impl(&src)), "nt=1;kind=surface-chain", &src);
+        }
+    }
+    for (op, tag) in [("!", "not"), ("-", "neg")] {
+        for n in 1..=7usize {
+            for (operand, ow) in [("a", format!("(id {})", sx_str("a"))), ("(a + b)", format!("(add plus (id {}) (id {}))", sx_str("a"), sx_str("b")))] {
+                let src = format!("{}{}", op.repeat(n), operand);
+                let w = format!("({} {} {})", tag, n - 1, ow);
+                em.case(&format!("(c04 {} {})", w, sx_str(&src)), &format!("(c04 true {})", parse_impl(&src)), "nt=1;kind=surface-prefix-run", &src);
+            }
+        }
+    }
+    // left-associative chains of one level, mixed operators
+    for (ops, tag, names) in [(vec!["+", "-"], "add", vec!["plus", "minus"]), (vec!["*", "/", "%"], "mul", vec!["star", "slash", "percent"]),
+                              (vec!["<", "==", "in"], "rel", vec!["lt", "eq", "in"])] {
+        for n in 2..=12usize {
+            let mut src = "t0".to_string();
+            let mut w = format!("(id {})", sx_str("t0"));
+            for i in 1..n {
+                let k = i % ops.len();
+                src = format!("{} {} t{}", src, ops[k], i);
+                w = format!("({} {} {} (id {}))", tag, names[k], w, sx_str(&format!("t{}", i)));
+            }
+            em.case(&format!("(c04 {} {})", w, sx_str(&src)), &format!("(c04 true {})", parse_impl(&src)), "nt=1;kind=surface-left-assoc", &src);
+        }
     }
 }
 
 pub fn run(em: &mut Emit, thorough: bool, seed: u64) {
+    emit_surface_chains(em);
     let mut memo = Vec::new();
     let maxops = if thorough { 3 } else { 2 };
     for n in 0..=maxops {
